@@ -49,6 +49,8 @@ type curState struct {
 	pos  int // index into keys; -1 = unplaced / off an end
 	off  bool
 	set  bool
+	// height of the tree when the cursor was opened
+	height int
 }
 
 var errStop = errors.New("harness: callback error")
@@ -179,7 +181,7 @@ func (s *Session) Exec2(t []string, num func(int) uint64) (obs, viol string, han
 			return errClass(err), "Cursor failed: " + err.Error(), true
 		}
 		o := s.Oracle[int(num(1))]
-		s.curs[int(num(2))] = &curState{c: c, keys: sortedKeys64(o), vals: copyMap(o), pos: -1}
+		s.curs[int(num(2))] = &curState{c: c, keys: sortedKeys64(o), vals: copyMap(o), pos: -1, height: int(m.Height())}
 		return "ok", "", true
 	case "cmin", "cmax", "cfwd", "cbwd", "cceil", "cget":
 		cs := s.curs[int(num(1))]
